@@ -538,6 +538,11 @@ impl World for Tokens {
                 let target = person_uuid(if *who == 0 { P0 } else { S0 });
                 let expire = matches!(op, Op::Expire(_));
                 let ml = if expire { ModifyList::new_purge_and_set(Attribute::AccountExpire, Value::new_datetime_epoch(srv::t(self.now - 1))) } else { ModifyList::new_purge(Attribute::AccountExpire) };
+                // (an internal modify of an entry that is in the recycle bin matches nothing and
+                // still answers Ok: the history variable follows what is stored, not the answer)
+                if self.deleted[*who] {
+                    return "skipped:account is in the recycle bin".into();
+                }
                 let r = self.idm.write(ct, |w| w.qs_write.internal_modify_uuid(target, &ml));
                 if r.is_ok() {
                     self.expired[*who] = expire;
@@ -547,7 +552,10 @@ impl World for Tokens {
             Op::NotYet | Op::ClearNotYet => {
                 let set = matches!(op, Op::NotYet);
                 let ml = if set { ModifyList::new_purge_and_set(Attribute::AccountValidFrom, Value::new_datetime_epoch(srv::t(self.now + 10_000_000))) } else { ModifyList::new_purge(Attribute::AccountValidFrom) };
-                let r = self.idm.write(ct, |w| w.qs_write.internal_modify_uuid(person_uuid(P0), &ml));
+if self.deleted[0] {
+                    return "skipped:account is in the recycle bin".into();
+                }
+                                let r = self.idm.write(ct, |w| w.qs_write.internal_modify_uuid(person_uuid(P0), &ml));
                 if r.is_ok() {
                     self.notyet = set;
                 }
